@@ -14,7 +14,7 @@ RULE = ('all ordered pairs of {K (every prefix), Cel, degF, degR}; every documen
         'distinct by (u, v, magnitude bucket)')
 SHARDS = {'quick': 16, 'thorough': 16}
 MIN_NONTRIVIAL = {'quick': 3000, 'thorough': 50000}
-REQUIRED_CLASSES = ['magnitude-with-uncertainty', 'array-magnitude', 'temperature', 'temperature-prefixed-kelvin', 'temperature-identity', 'level-to-linear', 'linear-to-level',
+REQUIRED_CLASSES = ['target-given-as-unit-object', 'magnitude-with-uncertainty', 'array-magnitude', 'temperature', 'temperature-prefixed-kelvin', 'temperature-identity', 'level-to-linear', 'linear-to-level',
                     'ratio', 'bel-neper', 'level-offset', 'log-identity', 'level-sum', 'level-difference', 'fraction-form',
                     'power-like', 'amplitude-like', 'neper']
 REQUIRED_MONITORS = ['repeated_value_query_compares', 'forward_compares', 'inverse_compares', 'identity_compares', 'sum_compares']
@@ -121,6 +121,15 @@ def _run(case, ctx):
     devs, mon, classes = [], {}, []
 
     as_array = case['k'] % 4 == 1        # every fourth magnitude of a pair goes through a NumPy array magnitude
+    obj_target = case['k'] % 3 == 1      # every third in-place conversion names its target by a unit OBJECT (Unit(v) / Quantity(1, v)), not a string
+
+    def tgt(v):
+        if not obj_target:
+            return v
+        classes.append('target-given-as-unit-object') if 'target-given-as-unit-object' not in classes else None
+        mon['unit_object_targets'] = mon.get('unit_object_targets', 0) + 1
+        from scinumtools.units import Unit
+        return Unit(v) if case['k'] % 2 else Q(1.0, v)
     uncertain = case['k'] % 4 == 3       # every fourth one carries a measurement uncertainty: the VALUE still follows the formula
 
     def conv(x, u, v, how='to'):
@@ -129,7 +138,7 @@ def _run(case, ctx):
             classes.append('array-magnitude') if 'array-magnitude' not in classes else None
             q = Q([x, x, x], u)
             if how == 'to':
-                q.to(v)
+                q.to(tgt(v))
                 vals = q.magnitude.value
             else:
                 vals = q.value(v)
@@ -156,7 +165,7 @@ def _run(case, ctx):
         else:
             q = Q(x, u)
         if how == 'to':
-            q.to(v)
+            q.to(tgt(v))
             return float(q.magnitude.value), q
         return float(q.value(v)), q
 
